@@ -18,6 +18,8 @@ import Fca.Drv.C04
 import Fca.Drv.C02
 import Fca.Drv.C19
 import Fca.Drv.C05
+import Fca.Drv.C09
+import Fca.Drv.C17
 open Lean Fca.Drv
 
 def allHandlers : List (String × Handler) :=
@@ -36,7 +38,9 @@ def allHandlers : List (String × Handler) :=
   Fca.Drv.C04.handlers ++
   Fca.Drv.C02.handlers ++
   Fca.Drv.C19.handlers ++
-  Fca.Drv.C05.handlers
+  Fca.Drv.C05.handlers ++
+  Fca.Drv.C09.handlers ++
+  Fca.Drv.C17.handlers
 
 def dispatch (line : String) : String :=
   match Json.parse line with
